@@ -269,7 +269,12 @@ pub fn worker(tier: &str, seed: u64, from: u64, to: u64, _extra: &[String]) -> A
     let scratch = world_f::scratch_root();
     let _ = std::fs::create_dir_all(&scratch);
     let progress_file = std::env::var("VERIF_WORKER_OUT").unwrap_or_default();
-    for i in from..to {
+    let stride = runner::stride_of(_extra);
+    let mut i = from;
+    while i < to {
+        let this_i = i;
+        i += stride;
+        let i = this_i;
         if !progress_file.is_empty() {
             runner::note_progress(&progress_file, i);
         }
